@@ -27,8 +27,8 @@ NAMES = ['div', 'span', 'p', 'a', 'b', 'ul', 'li', 'br', 'img', 'input', 'hr', '
 ATTR_NAMES = ['id', 'name', 'title', 'data-x', 'href', 'checked', 'disabled', 'class', 'style', 'x_y', 'onclick']
 BAD_ATTR_NAMES = ['1a', 'a$b', '-x', 'a.b', 'a:b', '@k']
 VALUES = ['v', '', 'a b', 'x"y', "it's", 'a<b', 'a>b', '1', 'é☃', 'k  l', ' pad ', 'a=b']
-CLASS_VALUES = ['k', 'k l', ' k  l ', 'A b-c', '']
-STYLE_VALUES = ['color: red', 'color:red;float:left', ' padding-top : 5px ; ', 'display: none;;', '', 'Color: RED']
+CLASS_VALUES = ['k', 'k l', ' k  l ', 'A b-c', '', None]
+STYLE_VALUES = ['color: red', 'color:red;float:left', ' padding-top : 5px ; ', 'display: none;;', '', 'Color: RED', None]
 TEXTS = ['x', ' ', '\n', 'hello world', '  two  ', 'a > b', 'é☃', '\t', 'x\ny', '1 < 2', 'a & b', 'R &'+' D']
 ENTITIES = ['amp', 'lt', 'nbsp', 'copy']
 CHARREFS = ['65', 'x41', '8364', 'X3c']
